@@ -67,13 +67,29 @@ func buildIntercepts() map[string]interceptFn {
 	}
 	ic["internal/bytealg.CompareString"] = ic["strings.Compare"]
 	indexByte := func(m *Machine, bs []*Term, c *Term) value {
-		// first i with bs[i]==c, else -1 ; forks per position only when symbolic
-		for i, b := range bs {
-			if m.branch(m.tb.Eq(b, c)) {
-				return m.tb.Const(64, uint64(i))
+		// first i with bs[i]==c, else -1, as one ite chain (no forks; users concretise when needed)
+		r := m.tb.Const(64, ^uint64(0))
+		for i := len(bs) - 1; i >= 0; i-- {
+			r = m.tb.Ite(m.tb.Eq(bs[i], c), m.tb.Const(64, uint64(i)), r)
+		}
+		return r
+	}
+	ic["strings.ContainsRune"] = func(m *Machine, f *Frame, a []value) (value, bool) {
+		s := a[0].(Str)
+		r := a[1].(*Term)
+		if !s.IsConc() {
+			return nil, false
+		}
+		for i := 0; i < len(s.s); i++ {
+			if s.s[i] >= 0x80 {
+				return nil, false
 			}
 		}
-		return m.tb.Const(64, ^uint64(0))
+		res := m.tb.False
+		for i := 0; i < len(s.s); i++ {
+			res = m.tb.Or(res, m.tb.Eq(r, m.tb.Const(32, uint64(s.s[i]))))
+		}
+		return res, true
 	}
 	ic["internal/bytealg.IndexByteString"] = func(m *Machine, f *Frame, a []value) (value, bool) {
 		return indexByte(m, a[0].(Str).Bytes(m.tb), a[1].(*Term)), true
